@@ -1826,7 +1826,8 @@ class RTCSctpTransport(AsyncIOEventEmitter):
             msg_type = data[0]
             if msg_type == DATA_CHANNEL_OPEN and len(data) >= 12:
                 # we should not receive an open for an existing channel
-                assert stream_id not in self._data_channels
+                if stream_id in self._data_channels:
+                    return
 
                 (
                     msg_type,
@@ -1837,9 +1838,13 @@ class RTCSctpTransport(AsyncIOEventEmitter):
                     protocol_length,
                 ) = unpack_from("!BBHLHH", data)
                 pos = 12
-                label = data[pos : pos + label_length].decode("utf8")
-                pos += label_length
-                protocol = data[pos : pos + protocol_length].decode("utf8")
+                try:
+                    label = data[pos : pos + label_length].decode("utf8")
+                    pos += label_length
+                    protocol = data[pos : pos + protocol_length].decode("utf8")
+                except UnicodeDecodeError:
+                    # malformed open request
+                    return
 
                 # check channel type
                 maxPacketLifeTime = None
@@ -1871,9 +1876,10 @@ class RTCSctpTransport(AsyncIOEventEmitter):
                 # emit channel
                 self.emit("datachannel", channel)
             elif msg_type == DATA_CHANNEL_ACK:
-                assert stream_id in self._data_channels
-                channel = self._data_channels[stream_id]
-                channel._setReadyState("open")
+                # ignore an acknowledgement for a channel we do not know
+                channel = self._data_channels.get(stream_id)
+                if channel is not None:
+                    channel._setReadyState("open")
         elif pp_id == WEBRTC_STRING and stream_id in self._data_channels:
             # emit message
             self._data_channels[stream_id].emit("message", data.decode("utf8"))
